@@ -473,6 +473,32 @@ def run_streams(ctx, case, fmt, nw, ops):
                 # JSON: nested records produce their own record-typed sub-documents inside the line, not extra lines
                 check_json(ctx, case, data, expected, written[w], streams[w].registry(), label, streams[w].path)
             ctx.event("streams:" + fmt)
+        if fmt == "json" and nw > 1:
+            # the files are self-contained: reading them SIDE BY SIDE (one record from each reader in turn) must give
+            # every reader exactly its own file's records - nothing learnt from one file may leak into another reader
+            from flow.record import RecordReader
+
+            try:
+                with warnings.catch_warnings():
+                    warnings.simplefilter("ignore")
+                    readers = [iter(RecordReader(st.path)) for st in streams]
+                    got = [[] for _ in readers]
+                    live = list(range(len(readers)))
+                    while live:
+                        for w in list(live):
+                            r = next(readers[w], None)
+                            if r is None:
+                                live.remove(w)
+                            else:
+                                got[w].append(mask(observe.normalise(observe.obs(r))))
+                for w in range(nw):
+                    if got[w] != written[w]:
+                        ctx.violation(classify(case, "json", ""), "json files of %d writers read side by side: reader %d does not return its own file's records" % (nw, w + 1),
+                                      detail={"diff": observe.first_diff(written[w], got[w]), "history": ops})
+                        break
+            except Exception as e:  # noqa: BLE001
+                ctx.violation(classify(case, "json", ""), "json files of %d writers read side by side: a reader fails: %s" % (nw, type(e).__name__), detail={"exception": repr(e)[:300], "history": ops})
+            ctx.event("json_files_read_side_by_side", nw)
     finally:
         for s in streams:
             if hasattr(s, "cleanup"):
